@@ -19,6 +19,7 @@ type c15Case struct {
 	C1, C2 int // channel counts of the two buffers; striped: C1 = channels, C2 = number of slices; put: pool (C1,K1) vs buffer (C2,K2)
 	K1, K2 int
 	Nil    bool // striped: outer slice nil (count 0)
+	Frames int  // frames of the operand buffers (0: 3 with length 2)
 }
 
 // snapshot of a buffer: shape + every sample over its capacity
@@ -56,9 +57,14 @@ func c15Run(cs c15Case) (fs []F) {
 		fs = append(fs, core.Failf(key+"/"+kind, "%+v: %s", cs, fmt.Sprintf(format, a...)))
 	}
 	mk := func(t, C, L, K int, first int64) dyn.Buf {
+		if cs.Frames > 0 && K == 3 {
+			L, K = cs.Frames-1, cs.Frames
+		}
 		b := dyn.Alloc(t, al(C, L, K))
 		fb := full(b)
-		fill(fb, first)
+		for i := 0; i < fb.Len(); i++ {
+			fb.SetSample(i, dyn.Tok(t, tk(first+int64(i))))
+		}
 		return b
 	}
 	switch cs.Fn {
@@ -99,7 +105,7 @@ func c15Run(cs c15Case) (fs []F) {
 		for i := range sls {
 			sls[i] = dyn.NewSl(st, 3)
 			for k := 0; k < 3; k++ {
-				sls[i].Set(k, dyn.Tok(st, int64(60+i*3+k)))
+				sls[i].Set(k, dyn.Tok(st, tk(int64(60+i*3+k))))
 			}
 		}
 		var p bool
@@ -116,7 +122,7 @@ func c15Run(cs c15Case) (fs []F) {
 		}
 		for i := range sls {
 			for k := 0; k < 3; k++ {
-				if g := sls[i].Get(k); g.Tok() != int64(60+i*3+k) {
+				if g := sls[i].Get(k); g.Tok() != tk(int64(60+i*3+k)) {
 					fail("modified", "caller's slice %d element %d changed to %v", i, k, g)
 				}
 			}
@@ -206,11 +212,37 @@ func init() {
 					}
 				}
 			}
+			// many channels and long buffers (fast paths that come before the check)
+			for s := 0; s < dyn.NB; s++ {
+				for d := 0; d < dyn.NB; d++ {
+					for _, cc := range [][2]int{{9, 10}, {10, 9}, {64, 65}, {65, 64}, {1, 100}, {2, 1}} {
+						fr := 0
+						if cc[0]+cc[1] < 20 {
+							fr = 1100
+						}
+						cases = append(cases, c15Case{Fn: "conv", S: tn(s), D: tn(d), C1: cc[0], C2: cc[1], Frames: fr})
+						if s == d {
+							cases = append(cases, c15Case{Fn: "append", S: tn(s), D: tn(s), C1: cc[0], C2: cc[1], Frames: fr})
+						}
+					}
+					for _, cn := range [][2]int{{9, 8}, {9, 10}, {65, 64}, {65, 66}, {2, 1}} {
+						fr := 0
+						if cn[0] < 5 {
+							fr = 1100
+						}
+						cases = append(cases, c15Case{Fn: "rstriped", S: tn(s), D: tn(d), C1: cn[0], C2: cn[1], Frames: fr})
+						cases = append(cases, c15Case{Fn: "wstriped", S: tn(s), D: tn(d), C1: cn[0], C2: cn[1], Frames: fr})
+					}
+				}
+				for _, pk := range [][4]int{{2, 512, 2, 513}, {2, 512, 1, 1023}, {9, 100, 10, 100}, {1, 20000, 1, 19999}, {65, 2, 64, 2}} {
+					cases = append(cases, c15Case{Fn: "put", S: tn(s), D: tn(s), C1: pk[0], K1: pk[1], C2: pk[2], K2: pk[3]})
+				}
+			}
 			c.ParallelFor(len(cases), func(i int) { c.Check(cases[i], true, c15Run(cases[i])) })
 			c.Sample(cases[0])
 			c.Sample(cases[len(cases)-1])
 			c.Sample(cases[len(cases)/2])
-			c.Set("rule", "the 13 guarded entry points: all 169 conversion instantiations x every ordered pair of different channel counts in 1..4; Append x 13 types x the same pairs; ReadStriped/WriteStriped x 169 pairs x channels 1..4 x slice counts 0..5 (and a nil outer slice) different from the channel count; PoolAllocator.Put x 13 types x pools (C<=3,K<=3) x buffers (C<=4,K<=4) of a different total capacity (incl. 0); operands non-empty, filled with recognisable tokens; oracle: the call panics and both buffers (shape + every sample over the capacity), the caller's slices and the pool's free list (seen through the sync shim) are identical to the snapshot taken before, and a following Get is fresh; every case distinct and non-trivial")
+			c.Set("rule", "the 13 guarded entry points: all 169 conversion instantiations x every ordered pair of different channel counts in 1..4; Append x 13 types x the same pairs; ReadStriped/WriteStriped x 169 pairs x channels 1..4 x slice counts 0..5 (and a nil outer slice) different from the channel count; PoolAllocator.Put x 13 types x pools (C<=3,K<=3) x buffers (C<=4,K<=4) of a different total capacity (incl. 0); operands non-empty, filled with recognisable tokens; plus channel-count pairs (9,10), (64,65), (1,100) and 1100-frame operands for all instantiations and pools up to 20000 samples; oracle: the call panics and both buffers (shape + every sample over the capacity), the caller's slices and the pool's free list (seen through the sync shim) are identical to the snapshot taken before, and a following Get is fresh; every case distinct and non-trivial")
 			c.Assume("the pool's contents are observed through the sync.Pool shim injected by overlay")
 		},
 		RunCase: func(c *core.Ctx, raw json.RawMessage) []F { return c15Run(decode[c15Case](raw)) },
